@@ -378,14 +378,15 @@ def runTab (tok : List String) : String × String :=
 /-! ### `ffi wres` -/
 
 def writeResultOfTok (tok : String) : Option WriteResult :=
-  if tok = "ok" then some .successInit
+  -- `ok<k>`: success with an uninitialised `exception` field: the field is not looked at
+  if tok.startsWith "ok" then some .successInit
   else if tok.startsWith "raw" then some (.rawExceptionInit (ffiNatOf (String.ofList (tok.toList.drop 3))))
   else if tok.startsWith "e" then (MxCode.ofInt (ffiNatOf (String.ofList (tok.toList.drop 1)))).map .exceptionInit
   else none
 
 /-- specification: the result returned by the application is what the client receives -/
 def specWres (what : String) : Option (String × String) :=
-  if what = "ok" then some ("complete c1 f0 d1", "complete")
+  if what.startsWith "ok" then some ("complete c1 f0 d1", "complete")
   else if what = "null" then some (s!"{Spec.exceptionErrorName 1} c0 f1 d1", "exc.1")
   else if what.startsWith "raw" then
     let b := ffiNatOf (String.ofList (what.toList.drop 3))
@@ -1068,7 +1069,7 @@ def runCtl (tok : List String) : String × String :=
      "add=0000 upd=0000 del=0000 get=NullParameter,NullParameter,NullParameter,NullParameter fltadd=NullParameter")
   | _ => bad
 
-/-- `ffi atomic <n regs> <transactions per thread> <reads> <threads> [<flags ⊆ {d,w}>]` -/
+/-- `ffi atomic <n regs> <transactions per thread> <reads> <threads> [<flags ⊆ {d,w,a}>]` -/
 def runAtomic (rest : List String) : String × String :=
   let okNums (n th : String) : Bool :=
     n.isNat && th.isNat && 1 ≤ n.toNat! && n.toNat! ≤ 125 && 1 ≤ th.toNat! && th.toNat! ≤ 16
@@ -1076,7 +1077,7 @@ def runAtomic (rest : List String) : String × String :=
   | [n, tx, rd, th] =>
     if okNums n th && tx.isNat && rd.isNat then both (atomicExpected none) else ("bad-case", "bad-case")
   | [n, tx, rd, th, flags] =>
-    if okNums n th && tx.isNat && rd.isNat && !flags.isEmpty && flags.toList.all (fun c => c = 'd' || c = 'w') then
+    if okNums n th && tx.isNat && rd.isNat && !flags.isEmpty && flags.toList.all (fun c => c = 'd' || c = 'w' || c = 'a') then
       (atomicExpected (some flags), "uniform torn=0 lost=0 work=ok")
     else ("bad-case", "bad-case")
   | _ => ("bad-case", "bad-case")
